@@ -1099,6 +1099,16 @@ impl SequencerBlock {
         if !are_rollup_ids_included(rollup_transactions.keys(), &rollup_ids_proof, data_hash) {
             return Err(SequencerBlockError::invalid_rollup_ids_proof());
         }
+        // Every per-rollup inclusion proof must verify against the rollup transactions root of the
+        // header, exactly as `FilteredSequencerBlock::try_from_raw` requires.
+        for rollup_transactions in rollup_transactions.values() {
+            if !super::do_rollup_transactions_match_root(
+                rollup_transactions,
+                header.rollup_transactions_root,
+            ) {
+                return Err(SequencerBlockError::rollup_transactions_not_in_sequencer_block());
+            }
+        }
 
         let upgrade_change_hashes = upgrade_change_hashes
             .into_iter()
